@@ -66,6 +66,12 @@ func (sc *Scope) lookupPkg(name string) *types.Package {
 			return sc.pkg
 		}
 	}
+	// zap's own packages first (log/slog/internal/buffer, fmt's unexported types ... share names)
+	for _, p := range sc.c.P.Prog.AllPackages() {
+		if sc.c.P.isZapPkg(p.Pkg) && (p.Pkg.Name() == name || shortPath(p.Pkg.Path()) == name) {
+			return p.Pkg
+		}
+	}
 	for _, p := range sc.c.P.Prog.AllPackages() {
 		if p.Pkg.Name() == name || shortPath(p.Pkg.Path()) == name {
 			return p.Pkg
@@ -1154,6 +1160,17 @@ func (sc *Scope) evalCall(x *ECall) Val {
 
 func (sc *Scope) candidateIDs(name string) []string {
 	ids := []string{name}
+	// pkg.f / pkg.T.m with pkg a package NAME (import paths with slashes cannot be written in an expression)
+	if parts := strings.Split(name, "."); len(parts) >= 2 {
+		if p := sc.lookupPkg(parts[0]); p != nil {
+			pp := shortPath(p.Path())
+			if len(parts) == 2 {
+				ids = append(ids, pp+"."+parts[1])
+			} else if len(parts) == 3 {
+				ids = append(ids, fmt.Sprintf("(%s.%s).%s", pp, parts[1], parts[2]), fmt.Sprintf("(*%s.%s).%s", pp, parts[1], parts[2]))
+			}
+		}
+	}
 	if sc.pkg != nil && !strings.Contains(name, ".") {
 		ids = append(ids, shortPath(sc.pkg.Path())+"."+name)
 	}
